@@ -14,7 +14,7 @@ pub static DEF: PropDef = PropDef {
     rule: "Sequences of 1..6 values (G-val control messages, G-data messages, single AVPs incl. hidden ones) encoded one after the other into a writer that already holds a prefix of 0..300 octets, or (1 case in 8) about 2^16 octets and beyond, where writer positions no longer fit 16 bits. \
 Oracle: (1) VecWriter{data: p} after the writes = p ++ encode_into_empty(v1) ++ .. ++ encode_into_empty(vk), checked after every value; (2) the same through MonWriter, a harness Writer that \
 records every write_bytes_at(offset, len) with the writer length at that moment: each overwrite must start at or after the first octet of the value being encoded, end within the octets written so far, \
-and an overwrite issued while an AVP is being encoded must lie inside that AVP; no overwrite may be out of range; MonWriter and VecWriter must end with identical octets. \
+and an overwrite issued while an AVP is being encoded must lie inside that AVP; no overwrite may be out of range; MonWriter and VecWriter must end with identical octets; in 3 cases of 10 MonWriter additionally reports positions offset by a virtual base of 2^16 .. 2^62 (around 2^32 most often), and no overwrite may land in those implicit octets; in 1 case of 10 a refused encode precedes one of the values. \
 Non-trivial = non-empty prefix or k >= 2; distinct by hash of (prefix, encodings).",
     assumptions: &[],
     parts,
@@ -83,15 +83,50 @@ fn check(t: &mut Tape, cx: &mut Cx) -> Res {
     };
     let plen = prefix.len();
     let k = 1 + t.below(6);
-    let vals: Vec<Val> = (0..k).map(|_| gen_val(t)).collect();
+    let mut vals: Vec<Val> = (0..k).map(|_| gen_val(t)).collect();
+    let refusals = if t.chance(10) { 1 } else { 0 };
+    let refusal_at = t.below(k);
+    // the stale `length` member of a control-message value sometimes equals the size of the whole batch so far plus
+    // the message itself (what a position-dependent encoder would compute)
+    if t.chance(15) {
+        let mut at = prefix.len();
+        for v in vals.iter_mut() {
+            let l = match v {
+                Val::Msg(m) => encode_message(m).len(),
+                Val::Avp(a) => avp_wire_len(a),
+            };
+            if let Val::Msg(SMsg::Control { length, .. }) = v {
+                *length = ((at + l) & 0xffff) as u16;
+            }
+            at += l;
+        }
+    }
     let render = |i: usize| json!({"prefix": hex_short(&prefix), "values": vals.iter().map(describe).collect::<Vec<_>>(), "failing_value_index": i});
 
     let mut vw = VecWriter::new();
     vw.data = prefix.clone();
-    let mut mw = MonWriter::with_prefix(&prefix);
+    // the monitoring writer may in addition be far into a stream: its first `base` octets are implicit (positions of
+    // 2^32 and more, which no in-memory buffer of this harness could hold)
+    let vbase: usize = match t.below(10) {
+        0 => (1usize << 32) - t.below(64),
+        1 => (1usize << 32) + t.below(64),
+        2 => (1usize << [16usize, 24, 31, 33, 40, 48, 62][t.below(7)]) + t.below(3),
+        _ => 0,
+    };
+    let mut mw = MonWriter::with_virtual_base(vbase, &prefix);
     let mut expect = prefix.clone();
     let mut n_over = 0u64;
     for (i, v) in vals.iter().enumerate() {
+        // occasionally an encode that is refused (an oversize AVP inside a message) happens on this thread first:
+        // whatever it leaves behind must not show up in the next value
+        if refusals > 0 && i == refusal_at {
+            cx.stage(STAGE_UNATTRIBUTED);
+            let big = SAvp { attr: 7, hidden: false, body: Body::Blob(vec![0x55; 1018 + i]) };
+            let m = SMsg::Control { length: 0, tunnel: 1, session: 2, ns: 3, nr: 4, avps: vec![SAvp { attr: 0, hidden: false, body: Body::U16(1) }, SAvp { attr: 9, hidden: false, body: Body::U16(7) }, big.clone()] };
+            let _ = crate_encode_msg(&m);
+            let _ = crate_encode_avp(&big);
+            cx.class("a refused encode preceded a value of the sequence");
+        }
         // reference: the value's encoding into an empty writer
         cx.stage(STAGE_ARMED);
         let alone = match v {
@@ -130,6 +165,12 @@ fn check(t: &mut Tape, cx: &mut Cx) -> Res {
         if let Caught::Panic(p) = r {
             return fail(format!("encoding into MonWriter panicked: {}", p.short()), render(i));
         }
+        if let Some(o) = mw.into_base.first() {
+            return fail(
+                format!("positional overwrite at offset {} lands in the {} octets the writer held before the value (the value starts at {})", o.offset, vbase + start, vbase + start),
+                render(i),
+            );
+        }
         if let Some(o) = mw.out_of_range.first() {
             return fail(format!("positional overwrite outside the written data: offset {} length {} with {} octets written", o.offset, o.len, o.writer_len), render(i));
         }
@@ -154,6 +195,8 @@ fn check(t: &mut Tape, cx: &mut Cx) -> Res {
         };
         for o in &mw.overwrites[ow0..] {
             n_over += 1;
+            // positions as the writer reported them are absolute; bring them back to indices into `expect`
+            let o = Overwrite { offset: o.offset - vbase, len: o.len, writer_len: o.writer_len - vbase };
             if o.offset < start {
                 return fail(format!("positional overwrite at offset {} touches octets before the value being encoded (which starts at {})", o.offset, start), render(i));
             }
@@ -178,6 +221,9 @@ fn check(t: &mut Tape, cx: &mut Cx) -> Res {
         _ => "prefix of about 2^16 octets or more",
     });
     cx.class(if k >= 2 { "sequence of >= 2 values" } else { "single value" });
+    if vbase != 0 {
+        cx.class("monitoring writer with a virtual base (positions of 2^16 .. 2^62 and more)");
+    }
     if plen > 0 || k >= 2 {
         cx.nontrivial(&expect);
     }
